@@ -23,6 +23,7 @@ RULE = (
     "float16 values x 40 float16 boxes; non-trivial = the input lies outside the box or within 3 ulps of a face"
 )
 ASSUMPTIONS = [
+    "boxes with a range near the largest double (up to 1.6e308) are included, with inputs up to 0.3 ranges outside; inputs whose distance to a face overflows a double (|x - lower| > 1.79e308) are not: 'congruent modulo the range' has no floating-point meaning there",
     "IEEE-754 binary64 / binary16 arithmetic of this platform's NumPy",
     "identity / congruence tolerance: 8 ulps of the largest magnitude involved, times (1 + number of ranges the input is away)",
     "interpretation: toroidal repair maps a point within tolerance of the upper face to the lower face (same point on the torus)",
@@ -36,8 +37,12 @@ METHODS = ("clip", "reflect", "toroidal")
 NARROW = [(0.0, 1e-15), (-3e-14, 5e-14), (1.0, 1.0000000000001), (-1e-13, 0.0), (123.456, 123.456000000001), (1e-300, 3e-300), (-0.1, -0.09999999999999)]
 
 
+# ranges close to the largest double: twice the range is not representable
+HUGE = [(-5e307, 5e307), (0.0, 1.2e308), (-1e308, 5e307), (-1.7e308, -1e307)]
+
+
 def boxes():
-    return [(a, b) for a, b in itertools.combinations(sorted(VALS), 2)] + NARROW
+    return [(a, b) for a, b in itertools.combinations(sorted(VALS), 2)] + NARROW + HUGE
 
 
 def inputs_for(lo, hi):
@@ -60,7 +65,12 @@ def inputs_for(lo, hi):
     for j in range(1, 10):
         out.append(lo + j * rng / 10)
     out.extend([np.nextafter(lo, hi), np.nextafter(hi, lo)])
-    return [float(v) for v in out]
+    if rng > 1e307:
+        # huge boxes: most multiples of the range are not representable; add points a fraction of the range outside
+        out.extend([hi + f * rng for f in (0.05, 0.1, 0.3)] + [lo - f * rng for f in (0.05, 0.2, 0.3)])
+    # (inputs whose distance to a face is itself not a representable double are left out: see ASSUMPTIONS)
+    with np.errstate(over="ignore"):
+        return [float(v) for v in out if np.isfinite(v) and np.isfinite(v - lo) and np.isfinite(hi - v)]
 
 
 def ulp(v):
@@ -118,7 +128,7 @@ def units(tier, seed):
     bs = boxes()
     us = [{"kind": "f64", "boxes": bs[i : i + 6]} for i in range(0, len(bs), 6)]
     # heterogeneous multi-dimensional boxes: three different (lo, hi) pairs as the dimensions of one call
-    wide = [b for b in bs if b[1] - b[0] >= 1e-9]
+    wide = [b for b in bs if 1e-9 <= b[1] - b[0] < 1e300]
     triples = [(wide[i], wide[(i * 7 + 3) % len(wide)], wide[(i * 13 + 5) % len(wide)]) for i in range(0, len(wide), 3)]
     us += [{"kind": "f64multi", "triples": triples[i : i + 8]} for i in range(0, len(triples), 8)]
     if tier == "thorough":
